@@ -31,7 +31,7 @@ ENUMS = [('parse_table_entry_kind', r'enum\s+class\s+parse_table_entry_kind\s*:\
 # struct layouts the prelude re-declares; each must still be what the header says (else extraction break)
 FACTS = [
     r'struct rule_info\s*\{\s*size16_t l_idx = uninitialized16;\s*size16_t r_idx = uninitialized16;\s*size16_t r_elements = uninitialized16;\s*\};',
-    r'struct parse_table_entry\s*\{\s*parse_table_entry_kind kind = parse_table_entry_kind::error;\s*size16_t arg = uninitialized16;\s*size8_t has_sr_conflict = 0;\s*\};',
+    r'struct parse_table_entry\s*\{\s*parse_table_entry_kind kind = parse_table_entry_kind::error;\s*size16_t arg = uninitialized16;\s*size8_t has_sr_conflict = 0;\s*size16_t sr_conflict_rule_info_idx = uninitialized16;\s*\};',
     r'struct situation_info\s*\{\s*size16_t rule_info_idx = uninitialized16;\s*size16_t after = uninitialized16;\s*size16_t t = uninitialized16;\s*\};',
     r'bool term;\s*size16_t idx;\s*\};',
     r'struct grammar_info\s*\{\s*symbol right_sides\[rule_count\]\[max_rule_element_count\] = \{ \};\s*rule_info rule_infos\[rule_count\] = \{ \};\s*utils::slice nterm_rule_slices\[nterm_count\] = \{ \};\s*int term_precedences\[term_count\] = \{ \};\s*associativity term_associativities\[term_count\] = \{ \};\s*int rule_precedences\[rule_count\] = \{ \};\s*associativity rule_associativities\[rule_count\] = \{ \};\s*size16_t rule_last_terms\[rule_count\] = \{ \};\s*\};',
@@ -63,7 +63,7 @@ size_t P_TERMS, P_NTERMS, P_RULES, P_MAXLEN, P_EMPTY, P_SUM_N1, P_STATE_CAP, P_S
 struct rule_info { size16_t l_idx; size16_t r_idx; size16_t r_elements; };
 struct symbol { bool term; size16_t idx; };
 struct utils__slice { size32_t start; size32_t n; };
-struct parse_table_entry { uint8_t kind; size16_t arg; size8_t has_sr_conflict; };
+struct parse_table_entry { uint8_t kind; size16_t arg; size8_t has_sr_conflict; size16_t sr_conflict_rule_info_idx; };
 struct situation_info { size16_t rule_info_idx; size16_t after; size16_t t; };
 struct grammar_info {
   struct symbol right_sides[PH_RULES][PH_MAXLEN];
